@@ -158,6 +158,10 @@ Inductive uop :=
 | UHttpStop (srv : Z)
 | UProxyNew (app node port : Z)
 | UProxyStop (app : Z)
+| USocksNew (srv node port version flags : Z)
+| USocksStop (srv : Z)
+| USocksCounts (srv : Z)
+| USocksBindStart (srv port : Z)
 | UTcpWriteBytes (s : Z) (data : list Z) (h : Z)
 | UTcpReadRaw (s bufsize h : Z) (loop : bool).     (* loop: re-issued after every successful completion *)                    (* async_read_some whose handler also reports the bytes *)   (* async_write_some of explicit bytes *)                 (* verification hook: simulation::verif_set_next_bind_port *)
 
@@ -170,6 +174,18 @@ Record proxy := mkProxy {
   px_node : Z; px_writing : bool; px_cin : list Z; px_sout : list Z; px_close : bool; px_resolving : bool
 }.
 #[export] Instance eta_proxy : Settable _ := settable! mkProxy <px_node; px_writing; px_cin; px_sout; px_close; px_resolving>.
+
+(* sim::socks_server and its connections *)
+Record sconn := mkSconn {
+  sc_cmd : Z; sc_buf : list Z;                    (* m_command; the bytes of m_out_buffer that were read as protocol messages *)
+  sc_want : Z; sc_off : Z; sc_got : list Z; sc_next : Z   (* the asio::async_read in progress: size, offset in m_out_buffer, received, continuation *)
+}.
+#[export] Instance eta_sconn : Settable _ := settable! mkSconn <sc_cmd; sc_buf; sc_want; sc_off; sc_got; sc_next>.
+Record socks := mkSocks {
+  so_node : Z; so_version : Z; so_flags : Z; so_bind_port : Z; so_counts : list Z; so_nconn : Z; so_close : bool;
+  so_conns : zmap sconn
+}.
+#[export] Instance eta_socks : Settable _ := settable! mkSocks <so_node; so_version; so_flags; so_bind_port; so_counts; so_nconn; so_close; so_conns>.
 
 Record net := mkNet {
   w_sinks : zmap sink; w_next_sink : Z;
@@ -185,12 +201,13 @@ Record net := mkNet {
   w_wall : zmap wall; w_rall : zmap rall;
   w_http : zmap http;
   w_proxy : zmap proxy;
+  w_socks : zmap socks;
   w_deadfwd : list Z        (* forwarders whose socket object has been destroyed *)
 }.
 #[export] Instance eta_net : Settable _ :=
   settable! mkNet <w_sinks; w_next_sink; w_handlers; w_nodes; w_in; w_out; w_route; w_mtu; w_mtus; w_hosts;
                    w_tcp_reg; w_udp_reg; w_next_port; w_tcps; w_udps; w_chans; w_next_chan; w_rslv; w_pcap;
-                   w_wall; w_rall; w_http; w_proxy; w_deadfwd>.
+                   w_wall; w_rall; w_http; w_proxy; w_socks; w_deadfwd>.
 
 Definition set_sink (w : net) (i : Z) (s : sink) : net := w <| w_sinks := mset (w_sinks w) i s |>.
 
